@@ -126,6 +126,11 @@ def run(c):
             method = rnd.choice(["GET", "GET", "POST", "PUT"])
             q = rand_query(rnd)
             target = rnd.choice(["/machine", "/machine/a8016240/49c242ba%2Dc18a.%5Fvm2", "/Metadata/Instance", "/x"]) + ("?" + q if q else "")
+            if rnd.random() < 0.06:
+                # neighbours of the two exempt uploads: only the exact (method, URL) pairs are exempt, these are signed
+                method, target = rnd.choice([("PUT", "/vmAgentLog?comp=config&type=x"), ("PUT", "/VMAGENTLOG?keyOnly"), ("POST", "/vmAgentLog"),
+                                             ("POST", "/machine/?comp=telemetrydata&x=1"), ("PUT", "/machine/?comp=telemetrydata"),
+                                             ("POST", "/machine?comp=telemetrydata"), ("PUT", "/vmAgentLog/"), ("PUT", "/vmAgentLogs")])
         blen = rnd.choice([0, 0, 1, 33, 200, 4096, 102400]) if method != "GET" else 0
         if i and i % (n // 7) == 0:
             # the key keeper latches a new key while the keep-alive connection stays open: from here on every request,
@@ -155,6 +160,22 @@ def run(c):
         steps.append({"op": "close", "conn": conn})
         reqs[rid] = {"method": "POST", "target": target, "blen": blen, "seed": 7000 + i, "exempt": False, "key": cur}
     c.extra["slow_uploads"] = 3 if not thorough else 25
+    # the key-keeper actor answers late (its reply is held at hook H4's gate for longer than any sensible time-out): the
+    # request waits for the key; "while a key is latched, every request relayed upstream carries ..." admits no unsigned relay
+    for i in range(2 if not thorough else 6):
+        rid, conn = "late%d" % i, "clate%d" % i
+        steps += [{"op": "connect", "conn": conn, "attr": {"uid": 0, "admin": 1, "dip": "168.63.129.16", "dport": 80}},
+                  {"op": "request", "conn": conn, "id": "pre" + rid, "method": "GET", "target": "/machine?comp=warm&n=%d" % i, "headers": [["Host", "h"]]},
+                  {"op": "arm", "label": "key_keeper.get_key", "skip": 0},
+                  {"op": "parallel", "branches": [
+                      [{"op": "request", "conn": conn, "id": rid, "method": "POST", "target": "/machine?comp=health&n=%d" % i, "headers": [["Host", "h"]],
+                        "body": {"seed": 8000 + i, "len": 77}, "timeout_ms": 15000}],
+                      [{"op": "wait_arrived", "label": "key_keeper.get_key", "n": 1, "timeout_ms": 5000}, {"op": "sleep", "ms": 1500},
+                       {"op": "release", "label": "key_keeper.get_key"}]]},
+                  {"op": "disarm", "label": "key_keeper.get_key"}, {"op": "close", "conn": conn}]
+        reqs["pre" + rid] = {"method": "GET", "target": "/machine?comp=warm&n=%d" % i, "blen": 0, "seed": 0, "exempt": False, "key": cur}
+        reqs[rid] = {"method": "POST", "target": "/machine?comp=health&n=%d" % i, "blen": 77, "seed": 8000 + i, "exempt": False, "key": cur}
+    c.extra["requests_with_late_key_reply"] = 2 if not thorough else 6
     # own calls through the real clients
     for i, kind in enumerate(["goalstate", "sharedconfig", "imds"]):
         steps.append({"op": "own_call", "kind": kind, "tag": "own%d" % i})
